@@ -5,8 +5,8 @@ cd /repo || exit 2
 if [ -n "$(git status --porcelain)" ]; then echo "repo not clean, refusing"; exit 2; fi
 git apply "$P" || { echo "patch does not apply"; exit 2; }
 for id in "$@"; do
-  (cd /verif && ./check "$id" quick 2>&1 | grep -v "^$" | tail -6)
-  echo "exit($id)=${PIPESTATUS[0]}"
+  (cd /verif && ./check "$id" quick > /tmp/try_mutant.$$.log 2>&1; echo "exit($id)=$?" >> /tmp/try_mutant.$$.log)
+  grep -v "^$" /tmp/try_mutant.$$.log | tail -7; rm -f /tmp/try_mutant.$$.log
 done
 git apply -R "$P"
 git status --porcelain | head -3
